@@ -1,7 +1,7 @@
 (* C13 — property theorems only: each closed by [exact] and followed by Print Assumptions. *)
 From Coq Require Import List ZArith Bool.
-From AV Require Import Model.C13_Num Model.C13_Decimal Model.C13_Cast Model.C13_Text.
-From AV Require Import Proofs.C13_Col Proofs.C13_Pow Proofs.C13_Rescale Proofs.C13_Int Proofs.C13_TextInt Proofs.C13_TextDec Proofs.C13_TextDecM Proofs.C13_DecInt Proofs.C13_Columns Proofs.C13_TextIntEq.
+From AV Require Import Model.C13_Num Model.C13_Decimal Model.C13_Cast Model.C13_Text Model.C13_Interval.
+From AV Require Import Proofs.C13_Col Proofs.C13_Pow Proofs.C13_Rescale Proofs.C13_Int Proofs.C13_TextInt Proofs.C13_TextDec Proofs.C13_TextDecM Proofs.C13_DecInt Proofs.C13_Columns Proofs.C13_TextIntEq Proofs.C13_Interval.
 Import ListNotations.
 Local Open Scope Z_scope.
 
@@ -230,3 +230,28 @@ Theorem decimal_text_roundtrip_spec : forall w p s v,
   parse_dec_spec w p s (fmt_dec v p s) = Some v.
 Proof. exact C13_TextDec.decimal_text_roundtrip_spec. Qed.
 Print Assumptions decimal_text_roundtrip_spec.
+
+(* Interval(MonthDayNano) -> Duration(unit): defined exactly on the intervals without a calendar part,
+   BOTH months = 0 and days = 0 being required; the value is the nanosecond count in the target unit
+   truncated toward zero *)
+Theorem interval_to_duration_exact : forall u m d n, - 2 ^ 31 <= d < 2 ^ 31 -> - 2 ^ 63 <= n < 2 ^ 63 ->
+  mdn_to_dur u (pack_mdn m d n) = if (m =? 0) && (d =? 0) then Some (Z.quot n (dur_scale u)) else None.
+Proof. exact mdn_to_dur_exact. Qed.
+Print Assumptions interval_to_duration_exact.
+
+(* strict / safe agreement for every modelled interval cast (MonthDayNano <-> Duration, YearMonth /
+   DayTime -> MonthDayNano, Int32 -> YearMonth) on a whole physical column: strict mode errs iff some
+   VALID row is not representable, safe mode nulls exactly those rows, rows under a null never matter *)
+Theorem interval_cast_strict_safe : forall kind u conv safe c, interval_conv kind u = Some conv ->
+  match run_kernel (interval_kernel kind u) safe c with
+  | ROk r => spec_cast conv safe (logical c) = Some (logical r)
+  | RErr => spec_cast conv safe (logical c) = None
+  | RPanic => False
+  end.
+Proof. exact interval_cast_refines. Qed.
+Print Assumptions interval_cast_strict_safe.
+
+(* lossless inverse: Duration -> Interval(MonthDayNano) -> Duration returns the value *)
+Theorem lossless_inverse_duration_interval : forall u v w, dur_to_mdn u v = Some w -> mdn_to_dur u w = Some v.
+Proof. exact dur_mdn_roundtrip. Qed.
+Print Assumptions lossless_inverse_duration_interval.
